@@ -21,6 +21,7 @@ import IbicusModel.Lemmas.C02Grid
 import IbicusModel.Lemmas.C02Order
 import IbicusModel.Lemmas.C02Dates
 import IbicusModel.Lemmas.C02Pos
+import IbicusModel.Lemmas.C02Vars
 
 namespace Props.C02
 open Model.Stats Model.Family Model.Debiasers Lemmas.C02
@@ -1083,5 +1084,31 @@ example : ∀ m ∈ Py.arange1 1 13, ∃ y1 ∈ take ((List.replicate 12 (2030 :
       (monthIdx (Py.arange1 1 13 ++ Py.arange1 1 13) m),
     ∃ y2 ∈ take ((List.replicate 12 (2030 : Int)) ++ List.replicate 12 2031) (monthIdx (Py.arange1 1 13 ++ Py.arange1 1 13) m),
       y1 ≠ y2 := by decide
+
+/-! ### the quantifier "ISIMIP additive", from the library's own settings table (tier A) -/
+
+/-- **Every variable whose documented trend preservation is additive — tas, psl, rlds — built from the library defaults**
+    (`ISIMIP.from_variable(v)`: the configuration read from the regenerated settings dictionaries,
+    `Lemmas.GenIsimipVars.genCfg`) passes a constant shift of `cm_future` through `_apply_on_window`; also with the
+    documented options switched on top of the defaults that keep the configuration additive and unbounded
+    (`event_likelihood_adjustment`, `nonparametric_qm`, `detrending`, … : `isimip_additive_shift` is for every such `cfg`). -/
+theorem isimip_default_variables_shift (v : String) (hv : v ∈ additiveVariables) (cfg : Model.Isimip.Cfg)
+    (hcfg : Lemmas.GenIsimipVars.genCfg v = some cfg)
+    (fam : Model.Isimip.IsiFamily) (hL : IsiShiftLaws fam) (o : Model.Isimip.Oracles) (d : Model.Isimip.Draws) (c : Rat)
+    (obs H F : List Rat) (yO yH yF : List Int)
+    (hO : obs ≠ []) (hH : H ≠ []) (hF : F ≠ [])
+    (hlO : obs.length = yO.length) (hlH : H.length = yH.length) (hlF : F.length = yF.length) :
+    Model.Isimip.applyOnWindow cfg fam o d obs H (F.map (fun x => x + c)) yO yH yF =
+      (Model.Isimip.applyOnWindow cfg fam o d obs H F yO yH yF).map (List.map (fun x => x + c)) := by
+  have h := additive_variables_cfg v hv
+  rw [hcfg] at h
+  obtain ⟨hU, ht, _, _⟩ := additiveCfg_spec h
+  exact isimip_additive_shift cfg hU ht fam hL o d c obs H F yO yH yF hO hH hF hlO hlH hlF
+
+/-- the event-likelihood adjustment on top of a default additive configuration stays within the theorem -/
+example (cfg : Model.Isimip.Cfg) (hU : Unbounded cfg) : Unbounded { cfg with eventLikelihoodAdjustment := true } :=
+  ⟨hU.lb, hU.lt, hU.ub, hU.ut⟩
+
+example : "rlds" ∈ additiveVariables := by decide
 
 end Props.C02
